@@ -31,6 +31,22 @@ def _ref(src, names):
     return tm.canon(tm.Translator(env).tr(e))
 
 
+def _series_function(prog, f):
+    """The function the factory calls to compute its normalising series: a nested function or a function of the
+    package (same module or imported) that contains a loop, called in an assignment of the factory's own body.
+    Its NAME is irrelevant (the pinned tree nests `zeta` / `polylog` inside the factories)."""
+    for st in f.body:
+        if isinstance(st, (ast.Assign, ast.AnnAssign)) and isinstance(st.value, ast.Call) and isinstance(st.value.func, ast.Name):
+            nm = st.value.func.id
+            cand = f.nested.get(nm)
+            if cand is None:
+                q = prog.resolve_name(f.module, nm) if hasattr(prog, "resolve_name") else nm
+                cand = f.module.functions.get(nm) or prog.functions.get(str(q).split(".")[-1])
+            if cand is not None and any(isinstance(x, (ast.While, ast.For)) for x in ast.walk(cand.node)):
+                return cand, st
+    return None, None
+
+
 def run(ctx):
     prog = ctx.prog
     ctx.trust("numpy.exp / math.exp / math.factorial / pow compute the functions they name", "IEEE float evaluation is not modelled")
@@ -88,10 +104,14 @@ def run(ctx):
                 continue
             outer_params = f.params
             series_names = set(f.nested) - {inner}
+            sfn, s_call_st = _series_function(prog, f)
+            canon_name = {sfn.name: series[0]} if (sfn is not None and series is not None) else {}
+            if sfn is not None:
+                series_names = series_names | {sfn.name}
 
-            def hook(nm, node, tr, series_names=series_names):
+            def hook(nm, node, tr, series_names=series_names, canon_name=canon_name):
                 if nm in series_names:
-                    return tm.atom_poly(("call", nm, tuple(tr.tr(a) for a in node.args)))
+                    return tm.atom_poly(("call", canon_name.get(nm, nm), tuple(tr.tr(a) for a in node.args)))
                 return None
             ft = FunTerm(hook)
             ft.of_function(f.node, [tm.sym(f"$o{i}") for i in range(len(outer_params))])
@@ -120,7 +140,7 @@ def run(ctx):
             if series is None:
                 o4.holds(f, f.node, "closed form without series normaliser", construct="n/a")
             else:
-                sname, _ = series
+                sname = sfn.name if sfn is not None else series[0]
                 calls_in_inner = [n for n in astx.walk_fn(pf.node) if isinstance(n, ast.Call) and txt(n.func) == sname]
                 calls_outer = [n for n in f.body if isinstance(n, (ast.Assign, ast.AnnAssign)) and isinstance(n.value, ast.Call) and txt(n.value.func) == sname]
                 if calls_in_inner:
@@ -133,20 +153,40 @@ def run(ctx):
     for owner, sname in (("power_law", "zeta"), ("scale_free_cut_off", "polylog")):
         with ctx.obligation("C19.3", f"{sname}: truncated-series idiom", floor=5) as o:
             f = prog.func(owner)
-            if sname not in f.nested:
-                o.undecided(f"{owner} has no nested `{sname}`", f)
+            sf, _st = _series_function(prog, f)
+            if sf is None:
+                o.undecided(f"{owner}: series helper not found", f)
                 continue
-            sf = f.nested[sname]
-            body = [s for s in sf.body]
-            loops = [s for s in body if isinstance(s, ast.While)]
-            rets = [s for s in body if isinstance(s, ast.Return)]
-            if len(loops) != 1 or len(rets) != 1:
-                o.undecided("series helper is not `init; while True: ...; return acc`", sf)
+            body = [s for s in sf.body if not (isinstance(s, ast.Expr) and isinstance(s.value, ast.Constant))]
+            loops = [s for s in body if isinstance(s, (ast.While, ast.For))]
+            rets_all = [x for x in astx.walk_fn(sf.node) if isinstance(x, ast.Return)]
+            if len(loops) != 1 or not rets_all:
+                o.undecided("series helper is not `init; <loop>; return acc`", sf)
                 continue
-            if not (isinstance(loops[0].test, ast.Constant) and loops[0].test.value):
-                o.violated(sf, loops[0], f"the series loop has the additional exit `while {txt(loops[0].test)}`: it can stop - or never start - while terms above the tolerance remain "
-                                         "(the only exit must be |term| < tol, tested after the term was added)")
+            lp0 = loops[0]
+            counted = None   # index variable supplied by `for k in itertools.count(START)`
+            if isinstance(lp0, ast.While):
+                if not (isinstance(lp0.test, ast.Constant) and lp0.test.value):
+                    o.violated(sf, lp0, f"the series loop has the additional exit `while {txt(lp0.test)}`: it can stop - or never start - while terms above the tolerance remain "
+                                        "(the only exit must be |term| < tol, tested after the term was added)")
+                    continue
+            else:
+                it_ = lp0.iter
+                bc_ = match(pat("$c($a)"), it_) if isinstance(it_, ast.Call) and len(it_.args) == 1 and not it_.keywords else None
+                if bc_ is None or prog.external(sf.module, bc_["c"]) != "itertools.count" or not isinstance(lp0.target, ast.Name) or lp0.orelse:
+                    if isinstance(it_, ast.Call) and txt(it_.func) == "range":
+                        o.violated(sf, lp0, f"the series is summed over the fixed `{txt(it_)}`: it stops at a fixed index whether or not the terms have dropped below the tolerance")
+                    else:
+                        o.undecided(f"series loop `for {txt(lp0.target)} in {txt(it_)}` not recognised", sf, lp0)
+                    continue
+                counted = (lp0.target.id, bc_["a"])
+            # the accumulator: the name returned (after the loop, or from inside the exit test)
+            ret_names = {txt(r_.value) for r_ in rets_all if r_.value is not None}
+            if len(ret_names) != 1:
+                o.undecided("series helper returns different things", sf)
                 continue
+            loops = [lp0]
+            rets = rets_all
             lp = loops[0]
             init = {}
             for s in body:
@@ -158,9 +198,11 @@ def run(ctx):
                         init[t_.id] = s.value
             acc = txt(rets[0].value)
             lb = list(lp.body)
+            if counted is not None:
+                init = dict(init)
             A = {id(s_): astx.as_aug(s_) for s_ in lb}
             adds = [A[id(s)] for s in lb if A[id(s)] is not None and isinstance(A[id(s)].op, ast.Add) and txt(A[id(s)].target) == acc]
-            breaks = [s for s in lb if isinstance(s, ast.If) and any(isinstance(x, ast.Break) for x in s.body)]
+            breaks = [s for s in lb if isinstance(s, ast.If) and any(isinstance(x, (ast.Break, ast.Return)) for x in s.body)]
             other_exits = [x for s in lb for x in ast.walk(s) if isinstance(x, (ast.Return, ast.Break))]
             if len(adds) != 1:
                 o.undecided(f"expected one `{acc} += term` in the loop", sf, lp)
@@ -173,15 +215,23 @@ def run(ctx):
                 o.holds(sf, add_st, f"accumulator `{acc}` starts at 0 and is returned")
             # index variable: the AugAssign += const on a name used in the term
             incs = [A[id(s)] for s in lb if A[id(s)] is not None and isinstance(A[id(s)].op, ast.Add) and txt(A[id(s)].target) != acc and isinstance(A[id(s)].target, ast.Name)]
-            if len(incs) != 1:
+            if counted is not None and not incs:
+                kv = counted[0]
+                if astx.const_value(counted[1]) == 1:
+                    o.holds(sf, lp, f"index `{kv}` runs 1, 2, 3, ... (itertools.count(1))")
+                else:
+                    o.violated(sf, lp, f"series index `{kv}` starts at {txt(counted[1])}; the series runs over k >= 1")
+            elif len(incs) != 1:
                 o.undecided("index increment not found", sf, lp)
                 continue
-            kv = incs[0].target.id
-            if astx.const_value(incs[0].value) != 1:
+            elif astx.const_value(incs[0].value) != 1:
+                kv = incs[0].target.id
                 o.violated(sf, incs[0].node, f"index advances by {txt(incs[0].value)}: terms of the series are skipped")
-            elif astx.const_value(init.get(kv)) != 1:
+            elif astx.const_value(init.get(incs[0].target.id)) != 1:
+                kv = incs[0].target.id
                 o.violated(sf, sf.node, f"series index `{kv}` starts at {txt(init.get(kv)) if kv in init else '?'}; the series runs over k >= 1")
             else:
+                kv = incs[0].target.id
                 o.holds(sf, incs[0].node, f"index `{kv}` runs 1, 2, 3, ...")
             # the term
             sc = Scope(sf.node)
